@@ -4,11 +4,11 @@
    C12 check: for every cut point k of random runs, restore the implementation's snapshot into a fresh interpreter
    and compare every continuation with the uninterrupted run; snapshot is valid JSON; later execution does not
    change it; re-snapshot reproduces it; corrupt streams are rejected with a library error (harness/props/c12.py).
-   PARTIAL: these theorems give state equality up to the listing order of the active set plus order-independence of
-   everything the engine derives from it (C16); lifting that to whole continuations needs the permutation-invariance
-   of every step, which is only checked by K (continuations agree run by run).  Child actors and systemId
-   registrations are outside Snap.v (see C15). *)
-From XSM Require Import Model.Macro Model.Snap Proofs.SortP Proofs.OrderP Proofs.HistP Proofs.SnapP.
+   C12_restored_continues_alike lifts the state-level theorems to EVERY continuation (sync engine; machines without
+   transitions into the root or into history states).  PARTIAL: history-targeting transitions and the async engine's
+   continuations are covered by the correspondence only; child actors and systemId registrations are outside Snap.v
+   (see C15); JSON validity, isolation and corrupt-stream rejection are runtime monitors. *)
+From XSM Require Import Model.Macro Model.Snap Proofs.SortP Proofs.OrderP Proofs.HistP Proofs.SnapP Proofs.LegalP Proofs.DescentP Proofs.InvariantP Proofs.PermP Proofs.SelectP.
 From Coq Require Import Permutation.
 
 (* a snapshot can always be restored on the machine that produced it *)
@@ -39,6 +39,17 @@ Theorem C12_restored_behaves_alike : forall m, ids_distinct m -> forall s,
   /\ sort_nat (s_cfg r) = sort_nat (s_cfg s).
 Proof. exact restored_behaves_alike. Qed.
 Print Assumptions C12_restored_behaves_alike.
+
+(* FOR EVERY CONTINUATION: the interpreter restored from the snapshot of a legal state and the interpreter the snapshot
+   was taken from (seen at that quiescent point, with what a snapshot does not carry - queue, log, clock, pending timers
+   and services - reset) produce, for any sequence of events, states that differ only in the listing order of the
+   active set: identical logs (configurations shown to hooks included), context, history, status, output.  For every
+   well-formed machine with distinct ids, declared initials and no transition targeting the root or a history state. *)
+Theorem C12_restored_continues_alike : forall m, wf m = true -> twf m = true -> good_initials m = true -> safe_targets m -> ids_distinct m ->
+  forall s r evs, Legal m (s_cfg s) -> Forall (fun e => snd e <> []) (s_hist s) -> restore m (persist m s) = Some r ->
+  eqv m (fold_left (fun s ev => catch (sync_send m ev) s) evs r) (fold_left (fun s ev => catch (sync_send m ev) s) evs (quiet s)).
+Proof. exact restored_continues_alike. Qed.
+Print Assumptions C12_restored_continues_alike.
 
 (* re-snapshotting a restored interpreter reproduces the snapshot *)
 Theorem C12_resnapshot : forall m, ids_distinct m -> forall s,
